@@ -23,6 +23,13 @@ SRV_RULE = ("scripted scenarios against the real Server.ServeCodec over a fake s
 SRV_MODELLED = ("server.go ServeCodec/ServeRequest/handleRequest/readRequestBody/callService/sendResponse and codec_server.go WriteResponse are modelled as the automaton S (Model/ServerSM.lean); "
                 "crash sites (nil Func, zero reflect.Value, WaitGroup reuse) are values of the model guarded by facts read from the source (Generated/ServerFacts.lean); streams and poll mode are not part of S")
 
+E2E_RULE = ("end-to-end scenarios: the real client stack (Conn, or Transport, or Client) against the real server stack over chunking in-memory links, inproc, tcp, unix, http (TLS on some), "
+            "x header encoder {default,pb,code,json} x body codec {json,bytes,code,pb,msgp} x server modes (poll, pipelining, direct I/O, context buffer, NoCopy) x client modes x buffer sizes {512,64K,1M} "
+            "x options by name or by constructor; PRNG workload of 6..200 operations from 1..6 goroutines (all call forms, failing handlers, unknown methods, pings, streams incl. server-first pushes and streams left open), "
+            "payloads 16 B..300 KB; the transcript is compared with the abstract spec computed by the Lean driver; distinct = configuration line")
+E2E_MODELLED = ("the composition is not modelled as a product automaton: the end-to-end statement is derived from K's provenance theorem, S's own-reply construction, the wire round-trip and the framing theorem under the linking hypothesis stated in Props/C01; "
+                "real networks, TLS, netpoll and the OS are outside every model")
+
 POOL_RULE = ("scripted scenarios against the real *rpc.Transport whose Dial returns real Conns over an in-memory scripted server: sequential and held (long-running) calls of four forms to three addresses, "
              "server kill/revive, idle phases (short / medium: KeepAlive passes / long: IdleConnTimeout passes), CloseIdleConnections, Close, limits in {-1,0,1,2,3}x{-1,0,1,2,5}; "
              "after every action the pool snapshot (verif accessor), open sockets, dial count and call outcomes are compared with the Lean pool automaton; distinct = (limits, action sequence)")
@@ -59,8 +66,11 @@ PROPS = {
     "C14": {"components": [{"name": "pool", "driver": "pool", "streams": ["p"]}], "rule": POOL_RULE, "trusted_base": TB_POOL, "modelled": POOL_MODELLED, "assumptions": ["'promptly' (ErrDial without delay) is measured by the harness deadline, not proved"]},
     "C15": {"components": [{"name": "pool", "driver": "pool", "streams": ["p"]}], "rule": POOL_RULE, "trusted_base": TB_POOL, "modelled": POOL_MODELLED, "assumptions": ["reclamation after KeepAlive/IdleConnTimeout is observed in the correspondence phases (idle medium / idle long), not proved as a liveness theorem",
         "the window between getConn returning a connection and the call registering on it is not gate-bounded (DESIGN.md D12): the spares-busy theorem is about connections in active lists"]},
+    "C04": {"components": [{"name": "server", "driver": "server", "streams": ["s"]}, {"name": "e2e", "driver": "e2e", "streams": ["e"]}],
+            "rule": SRV_RULE + " | " + E2E_RULE, "trusted_base": TB_COMMON, "modelled": SRV_MODELLED + " | " + E2E_MODELLED,
+            "assumptions": ["the peer uses each sequence number once per connection (guaranteed by the client half: K's pending-table invariant)", "Transport/Client never retry: checked by the end-to-end execution counts, not a theorem"]},
     "C08": {
-        "components": [{"name": "wire", "driver": "wire", "streams": ["c08"]}],
+        "components": [{"name": "wire", "driver": "wire", "streams": ["c08"]}, {"name": "server", "driver": "server", "streams": ["s"]}, {"name": "conn", "driver": "conn", "streams": ["k"]}],
         "rule": "malformed stream: every truncation (≤48 cut points per frame) and single-byte substitutions {00,01,08,7f,80,ff,random} in the first 12 and 4 random positions of valid frames, "
                 "hand-written adversarial frames (10-byte varints, over-long length fields), random bytes; each decoded twice with different stale bytes behind the frame; "
                 "distinct = (derivation, header, kind, length bucket, outcome)",
@@ -92,6 +102,10 @@ MANIFEST_TEXT = {
         "text": "Lean 4 theorems over K: cancelling an un-returned context call is an always-enabled step that returns the context's error, keeps the call registered and changes no other call; a late response changes only the call registered under its sequence number; a signalled call is never touched again; the reply goes into the caller's buffer iff its capacity suffices. Correspondence under scripted orders of cancel vs response, buffers of capacity len-1/len/len+1.",
         "note": KERNEL_NOTE + "'As soon as' is a one-step enabledness lemma plus measured deadlines.",
         "technique": "Lean 4 proof (step/frame lemmas) + state correspondence + buffer-bounds monitor"},
+    "C04": {
+        "text": "Lean 4 theorems over the server-connection automaton S (every interleaving of reader, decode worker, execution workers, handlers, teardown; every request mix incl. all 256 upgrade bytes and junk; every disconnect point): no request is executed or answered twice, no handler or response is phantom, and at the end of the connection every request read was executed exactly once if it had to be and answered exactly once. S is compared state-by-state with the real ServeCodec under scripted schedules; end-to-end runs count executions per call across all configurations and through Transport and Client.",
+        "note": KERNEL_NOTE + "Unique sequence numbers per connection are assumed of the peer (the client half proves it of the library's own client). 'Never retries' for Transport/Client is measured end to end.",
+        "technique": "Lean 4 proof (counting invariants over all traces) + state correspondence + end-to-end execution counts"},
     "C13": {
         "text": "Lean 4 theorems over the pool automaton P for every sequence of pool events (any callers, addresses, ticks at any clock values, failures, CloseIdleConnections, Close): open sockets per address never exceed MaxConnsPerHost, idle queues never exceed MaxIdleConnsPerHost, limits are normalised as documented. Normalisation and cursor arithmetic are translated from transport.go on every run; P is compared with the real Transport (pool snapshot, open sockets, dials, outcomes) after every action of scripted scenarios, and a counting socket wrapper checks the bound at every dial.",
         "note": KERNEL_NOTE + "Also trusted: the verif-tagged accessors and real timers in the correspondence phases (margins >= 20 ticks).",
@@ -110,7 +124,7 @@ MANIFEST_TEXT = {
         "technique": "Lean 4 proof (round-trip, format, scratch-independence) + regenerated constants + byte-exact differential correspondence"},
     "C08": {
         "text": "Lean 4 theorems: the four header decoders never panic and never read past the frame, for every byte string and every content of the read buffer behind it; every upgrade byte decodes to in-range flags. Go slice semantics (index vs len, re-slice vs cap) and panics are values of the model; model and real decoders are compared on a malformed-frame stream.",
-        "note": KERNEL_NOTE + "Dispatch and teardown parts of C08 are added with the server automaton.",
+        "note": KERNEL_NOTE + "Plus: over the server automaton S no sequence of frames, handler results and disconnect points crashes the connection (crash sites guarded by five facts read from server.go), teardown never dispatches after wg.Wait. Client-side Conn.read robustness is exercised by the conn harness with junk/unknown/duplicate frames. 'Other connections still served' is exercised end to end, not proved.",
         "technique": "Lean 4 proof (totality, non-interference of stale buffer bytes) + differential correspondence on malformed frames"},
     "C02": {
         "text": "Lean 4 theorems over the client-connection automaton K (every interleaving of sender, reader, decode and completion threads; any write verdicts, frames, EOF, errors, Close): a call is owned by exactly one path at any time, is signalled at most once and its outcome is written at most once. K is compared state-by-state with the real Conn under scripted schedules (gated fake transport) after every action, in all four I/O modes.",
